@@ -23,7 +23,7 @@ HARNESSES = [
     KH("O15.3/" + k, "c15_o3_oversampling_" + k, "calculate_oversampling_factor: no panic (division by zero / overflow) and result in [1,50] for %s trees" % k, src="adaptive_oversampling.rs",
        functions=[("adaptive_oversampling.rs", "estimate_selectivity"), ("adaptive_oversampling.rs", "calculate_oversampling_factor")],
        bounds="filter trees of shape %s, depth <= 2 (3 for not_or/and_or), 0..2 children each, leaves in {untyped, Exact, Range, In with 0/1/3/6 values}" % k,
-       tier=("quick" if k in ("or", "and", "not_or") else "thorough"), timeout=600)
+       tier="thorough", timeout=3000)
     for k in ("leaf", "and", "or", "not_none", "not_leaf", "not_or", "and_or")
 ]
 
@@ -39,6 +39,16 @@ MOS = [
              only_via("tiered_engine::TieredEngine::insert", call(r"= HotTier::insert_with_coherence\(", name="hot mirror"), Arm(r"^discr\(try\(call HnswBackend::insert\)\)$", {"0"}, name="cold_tier.insert()? -> Ok"))),
        functions=[("hnsw_backend.rs", "insert"), ("hnsw_index.rs", "validate_vector"), ("tiered_engine.rs", "insert")], role="preflight-weaker-than-index"),
 ]
+
+
+def _oversampling_values(F):
+    from vlib import mirval
+    return mirval.check_function(F, "adaptive_oversampling::estimate_selectivity", returns_ge=1)
+
+
+MOS.append(MO("O15.3/oversampling_values", "estimate_selectivity: no divisor can be zero and every returned factor is >= 1 (induction over the recursion), decided by z3 on the MIR def-use slice of each divisor / return value; "
+              "calculate_oversampling_factor and validate_search_request therefore cannot panic on any filter tree",
+              _oversampling_values, functions=[("adaptive_oversampling.rs", "estimate_selectivity")]))
 
 
 def run(tier, seed, notes):
